@@ -565,7 +565,10 @@ func (g *progGen) tabular(o opts) []string {
 	}
 	for i := 0; i < n; i++ {
 		name := pick(opNames)
-		if name == "join" && (o.joins <= 0 || rng.Intn(2) == 0) {
+		if g.evalMode && o.joins > 0 && rng.Intn(3) == 0 {
+			name = "join"
+		}
+		if name == "join" && (o.joins <= 0 || (!g.evalMode && rng.Intn(2) == 0)) {
 			name = "where"
 		}
 		if name == "render" && rng.Intn(2) == 0 {
